@@ -95,7 +95,8 @@ def run_mutant(args):
             rules = None
             if m["kind"] == "break" and m.get("only_expected", True):
                 rules = [x for x in m["expect"] if x in registry.RULES]
-            viol, errs = analyse_tree(d, rules=rules, witnesses=want_w or m["kind"] == "benign")
+            viol, errs = analyse_tree(d, rules=rules, witnesses=want_w or m["kind"] == "benign",
+                                      debug_assertions=m.get("config") != "release")
         except AnalysisError as e:
             return {"id": m["id"], "status": "analysis-error", "detail": str(e)[:400], "wall_s": time.time() - t0}
         return {"id": m["id"], "violations": viol, "errors": errs, "wall_s": round(time.time() - t0, 1)}
